@@ -180,6 +180,9 @@ func (c *Ctx) Finish(verifDir string, start time.Time, level string, explanation
 				nontriv++
 			}
 		default:
+			if os.Getenv("VERIF_UNDECIDED_OK") != "" && (o.Kind == "undecided" || o.Kind == "anchor" || o.Kind == "floor") {
+				continue // experiment switch (tools only): which detections rest on "cannot decide" alone
+			}
 			matched := false
 			for _, k := range known {
 				if k.Status == "known" && k.Property == c.Property && k.Rule == o.Rule && k.Function == o.Func && k.Construct == o.Construct {
